@@ -439,6 +439,10 @@ class EFn(C.Fn):
             a0 = C._strip(a)
             while a0["kind"] in ("ImplicitCastExpr", "CXXConstructExpr", "CXXBindTemporaryExpr") and len(kids(a0)) == 1:
                 a0 = C._strip(kids(a0)[0])
+            sp = self.bind_special(p, a0)
+            if sp is not None:
+                benv[p["id"]] = sp
+                return bind(i + 1)
             t = ptype(p.get("type"))
             if a0["kind"] == "StringLiteral" or t == DROPT or (a0["kind"] == "UnaryOperator" and a0.get("opcode") == "&"):
                 benv[p["id"]] = "drop"
@@ -477,6 +481,9 @@ class EFn(C.Fn):
         return bind(0)
 
     inlining = ()
+
+    def bind_special(self, p, a0):
+        return None
 
     def inline(self, fn, ffile, benv, k, lets):
         if self.inline_depth > 4:
